@@ -374,3 +374,128 @@ class GenericTypeGetitem(Contract):
             return [("hit_returns_cached", result == "cached-class" and ctx.made == [] and c == {("other",): "other-class", ctx.key: "cached-class"})]
         ok = len(ctx.made) == 1 and ctx.made[0][0] == "Term" and ctx.made[0][1] == (ctx.cls,) and ctx.made[0][2].get("__args__") == ctx.key
         return [("miss_builds_subclass_with_those_args", ok), ("stored_under_exactly_that_key", c == {("other",): "other-class", ctx.key: result})]
+
+
+# ==================================================================================================
+# key injectivity of the parametrised-op tables: OpMetaCall returns the cached op for an EQUAL key, so two argument
+# tuples that denote different ops must never get equal keys
+# ==================================================================================================
+def _same_index(a, b):
+    """structural identity of two getslice indices: same kind (tuple or not), same length, entries of the same type and value"""
+    if isinstance(a, tuple) != isinstance(b, tuple):
+        return False
+    if isinstance(a, tuple):
+        return len(a) == len(b) and all(_same_index(x, y) for x, y in zip(a, b))
+    if type(a) is not type(b):
+        return False
+    if isinstance(a, slice):
+        return (a.start, a.stop, a.step) == (b.start, b.stop, b.step) and all(type(u) is type(v) for u, v in zip((a.start, a.stop, a.step), (b.start, b.stop, b.step)))
+    return a == b or (a is b)
+
+
+@register
+class GetsliceKeyInjective(Contract):
+    """GetsliceMeta.hash_args_kwargs -- the key under which GetsliceOp instances are interned (slices are not hashable, so the
+    class builds its own key): for every pair of indices of a universe covering each supported kind (None, Ellipsis, ints
+    incl. negative, booleans, slices with None / 0 / negative fields, and tuples of up to two of those) and both calling
+    conventions (positional, keyword), EQUAL KEYS IMPLY THE SAME INDEX (same tuple-ness, same entry types and values); and
+    the key is hashable.  With contract OpMetaCall (a hit returns the cached op) this gives: the op returned for an index
+    was constructed from that very index -- x[0] is never answered with the op of x[(0,)] (the repaired defect), nor x[1]
+    with x[True].  one structure per left index, all right indices inside."""
+
+    props = ("C07",)
+    file = "funsor/ops/builtin.py"
+    qualname = "GetsliceMeta.hash_args_kwargs"
+    total = True
+    mutants = (
+        ("a bare index is keyed as the one-tuple of it (the pinned-tree defect)", "        return is_tuple, key", "        return key"),
+        ("entries keyed by value only", "(x.start, x.stop, x.step) if isinstance(x, slice) else (type(x), x)", "(x.start, x.stop, x.step) if isinstance(x, slice) else x"),
+        ("slices keyed without their step", "(x.start, x.stop, x.step) if isinstance(x, slice)", "(x.start, x.stop) if isinstance(x, slice)"),
+    )
+
+    @staticmethod
+    def universe():
+        atoms = [None, Ellipsis, 0, 1, -1, True, False, slice(None), slice(0, None), slice(None, None, 1), slice(None, None, -1), slice(0, None, -1), slice(1, 3, 2), slice(None, 3)]
+        u = list(atoms)
+        u += [(a,) for a in atoms]
+        u += [(a, b) for a in atoms[:9] for b in atoms[:9]]
+        return u
+
+    def structures(self, tier):
+        for i, a in enumerate(self.universe()):
+            yield "left=%r" % (a,), i
+
+    def build(self, p, i):
+        return Ctx(args=(), namespace=dict(isinstance=core.sisinstance, tuple=tuple, slice=slice, type=type), i=i)
+
+    def entry(self, loc, ctx):
+        f, interp = core.make_callable(loc, ctx.namespace, self.hooks(ctx))
+        u = self.universe()
+
+        def run():
+            a = u[ctx.i]
+            ka = [f(None, (a,), {}), f(None, (), {"index": a})]
+            out = []
+            for b in u:
+                out.append((b, f(None, (b,), {})))
+            return a, ka, out
+
+        return run, interp
+
+    def ensures(self, ctx, result):
+        a, ka, out = result
+        ok_conv = ka[0] == ka[1]
+        try:
+            hash(ka[0])
+            hashable = True
+        except TypeError:
+            hashable = False
+        inj = all(_same_index(a, b) for b, kb in out if kb == ka[0])
+        refl = any(kb == ka[0] for b, kb in out)
+        return [("equal_keys_imply_the_same_index", inj and refl), ("positional_and_keyword_calls_agree", ok_conv), ("key_is_hashable", hashable)]
+
+
+@register
+class ReshapeKeyInjective(Contract):
+    """ReshapeMeta.hash_args_kwargs: the shape is converted to a tuple (so a list / torch.Size and the equal tuple share one
+    op) and then keyed like every op; equal keys imply equal shapes as tuples of ints, and no-argument calls key as ((), ())."""
+
+    props = ("C07",)
+    file = "funsor/ops/array.py"
+    qualname = "ReshapeMeta.hash_args_kwargs"
+    total = True
+    mutants = (("shape keyed by its length", "            shape = tuple(shape)  # necessary to convert torch.Size to tuple", "            shape = (len(tuple(shape)),)"),)
+
+    SHAPES = [(), (1,), (2,), (2, 3), (3, 2), (6,), (1, 6), [2, 3], [6], (2, 3, 1)]
+
+    def structures(self, tier):
+        for i, s in enumerate(self.SHAPES):
+            yield "left=%r" % (s,), i
+
+    def build(self, p, i):
+        def sup(sc, *a):
+            class S:
+                @staticmethod
+                def hash_args_kwargs(args, kwargs):
+                    return args, tuple(kwargs.items())
+
+            return S()
+
+        return Ctx(args=(), namespace=dict(tuple=tuple), i=i, sup=sup)
+
+    def hooks(self, ctx):
+        return {"super": ctx.sup}
+
+    def entry(self, loc, ctx):
+        f, interp = core.make_callable(loc, ctx.namespace, self.hooks(ctx))
+
+        def run():
+            a = self.SHAPES[ctx.i]
+            return a, f(None, (a,), {}), [(b, f(None, (b,), {})) for b in self.SHAPES], f(None, (), {})
+
+        return run, interp
+
+    def ensures(self, ctx, result):
+        a, ka, out, k0 = result
+        inj = all(tuple(a) == tuple(b) for b, kb in out if kb == ka) and all(kb == ka for b, kb in out if tuple(a) == tuple(b))
+        return [("equal_keys_iff_equal_shapes", inj), ("no_argument_call_has_the_generic_key", k0 == ((), ()))]
